@@ -1,6 +1,7 @@
 """C10 - Interrupted or failed regeneration never leaves silently stale build files."""
 import json
 import os
+import re
 import shutil
 
 from .. import core, proj
@@ -177,6 +178,20 @@ class World:
         if os.path.isdir(pc):
             # (a *.tmp left behind by a killed atomic write is litter, not a declared output)
             names += ['pkgconfig/' + n for n in sorted(os.listdir(pc)) if not n.endswith('.tmp')]
+        # whatever else the build file itself declares as an output of the regeneration step
+        # (read from its rule for the build file: today nothing more than the above)
+        try:
+            with open(os.path.join(self.bld, PRIMARY[self.backend]), encoding='utf-8',
+                      errors='replace') as f:
+                text = f.read()
+            pat = (r'^Makefile((?: [^:\n]*)?):' if self.backend == 'make'
+                   else r'^build build\.ninja((?: [^:|\n]*)?)[:|]')
+            for m in re.finditer(pat, text, re.M):
+                for tok in m.group(1).split():
+                    if tok == 'compile_commands.json' and tok not in names:
+                        names.append(tok)
+        except OSError:
+            pass
         for n in names:
             p = os.path.join(self.bld, n)
             try:
